@@ -48,13 +48,14 @@ impl ReferenceIdRequest {
         )?;
         writer.write_all(&ef_len.to_be_bytes())?;
         writer.write_all(&self.offset.to_be_bytes())?;
-        writer.write_all(&[0; 2])?;
 
-        let words = payload_len / 4;
-        assert_eq!(payload_len % 4, 0);
-
-        for _ in 1..words {
-            writer.write_all(&[0; 4])?;
+        // The rest of the payload is zero. A decoded request can have any payload length, so
+        // fill up to the next word boundary (the field holds at least one word).
+        let mut remaining = usize::from(payload_len).next_multiple_of(4).max(4) - 2;
+        while remaining > 0 {
+            let n = remaining.min(4);
+            writer.write_all(&[0; 4][..n])?;
+            remaining -= n;
         }
 
         Ok(())
